@@ -17,8 +17,8 @@ echo "$name suite with change: $(python3 /root/bl/check_bl.py /tmp/seed/$name-su
 if [ -f $d/demo.rs ] && ! grep -q "fn main" $d/demo.rs; then
 cp $d/demo.rs tests/seed_demo.rs
 timeout 900 cargo test --offline --test seed_demo -- --test-threads 4 > /tmp/seed/$name-demo-with.log 2>&1; echo "$name demo WITH change rc=$? $(grep 'test result' /tmp/seed/$name-demo-with.log | head -2)"
-git checkout -q -- src; touch $(git diff HEAD --name-only 2>/dev/null) src/lib.rs
+git reset -q; git checkout -q HEAD -- src; touch $(git diff HEAD --name-only 2>/dev/null) src/lib.rs
 timeout 900 cargo test --offline --test seed_demo -- --test-threads 4 > /tmp/seed/$name-demo-without.log 2>&1; echo "$name demo WITHOUT change rc=$? $(grep 'test result' /tmp/seed/$name-demo-without.log | head -2)"
 fi
-rm -f tests/seed_demo.rs; git checkout -q -- .
-rm -rf $TMPDIR
+rm -f tests/seed_demo.rs; git reset -q; git checkout -q HEAD -- .
+rm -rf $TMPDIR $T/wal_files $T/rocksdb_benchmark_db
